@@ -17,7 +17,11 @@ def scaled_get_fn(get_fn, s: Union[int, float]):
 
 def scaled_set_fn(set_fn, s: Union[int, float]):
     def wrapper(bs, value, *args, scale=s, **kwargs):
-        return set_fn(bs, value / scale, *args, **kwargs)
+        try:
+            scaled_value = value / scale
+        except OverflowError:
+            raise ValueError(f"The value {value} is too large to be divided by the scale of {scale}.")
+        return set_fn(bs, scaled_value, *args, **kwargs)
     return wrapper
 
 
